@@ -1,10 +1,11 @@
 (* Extraction of the certified root oracle to ocaml/cert.ml (module Cert). *)
 Require Import ExtrOcamlBasic ExtrOcamlNativeString.
 From Coq Require Import ZArith.
-From MPSV Require Import Roots.GaussZ Roots.PolyZ Roots.Cert.
+From MPSV Require Import Roots.GaussZ Roots.PolyZ Roots.Cert Roots.Transform.
 Extraction "../ocaml/cert.ml"
-  cert_check scaling_ok product_ok factor_shape_ok factor_ok newton_ok
+  cert_check scaling_ok product_ok factor_shape_ok factor_ok newton_ok newton_test newton_ok_trunc
   pairwise_disjoint all_discs disc_disjoint disc_inside disc_wf
-  tiny_list count_bounds cover all_covered sides real_roots disc_of_dyadic mkdisc
+  tiny_list count_bounds cover uncovered all_covered sides real_roots disc_of_dyadic mkdisc
   factors_prod peqb pscale
+  secular_to_monomial chebyshev_to_monomial all_rcoef_wf secular_wf
   Z.add Z.mul Z.opp Z.quotrem Z.of_nat Z.to_nat Z.eqb Z.ltb Z.pow.
